@@ -3,7 +3,8 @@ import random, json, itertools, re as _re
 import elayer as E, glayer, refmodel as R
 
 LEVEL = "other"
-G_UNITS = {"cmp_select": ["build_eq_expr"], "cmp_flags": ["HelperAttributesForCompareOp::is_ignore"]}
+G_UNITS = {"cmp_select": ["build_eq_expr", "build_eq_assertion"], "cmp_flags": ["HelperAttributesForCompareOp::is_ignore"],
+           "kinds": ["HelperAttributeKinds::is_match_cmp_attr"]}      # which helper attributes Eq reads: eq and ord, nothing of partial_eq / partial_ord
 
 SUPPORT = r'''
 /// PartialEq-only (float-like) component
@@ -61,6 +62,10 @@ EXTRA = [  # (derive list, item, must compile)
     ("PartialEq, Eq, Hash", "pub enum X<T> { A(#[hash(ignore)] T, u8), B }", None),       # instantiated with NE: must be refused
     ("PartialEq, Eq, Hash", "pub struct X { pub id: u32, #[hash(ignore)] pub w: u8 }", True),
     ("PartialEq, Eq, Hash", "pub struct X { pub id: u32, #[eq(ignore)] pub w: NE }", True),
+    # Eq alone through #[derive(Ex)] next to a standard PartialEq: a `partial_eq(by = ..)` steers nothing there and exempts nothing
+    ("@derive:Eq", "pub struct X { pub id: u32, #[partial_eq(by = by_b)] #[eq(key = key_f(&$))] pub w: f32 }", False),
+    ("@derive:Eq", "pub struct X { pub id: u32, #[partial_ord(by = by_po)] #[ord(key = key_ne(&$))] pub w: u8 }", False),
+    ("@derive:Eq", "pub struct X { pub id: u32, #[partial_eq(by = by_b)] #[eq(key = key_eq(&$))] pub w: f32 }", True),
     ("PartialEq, Eq, Hash", "pub struct X { pub id: u32, #[hash(key = key_eq(&$))] #[eq(key = key_ne(&$))] pub w: u8 }", False),
     ("PartialEq, Eq, Hash", "pub struct X { pub id: u32, #[hash(by = hby)] #[eq(key = key_eq(&$))] pub w: NE }", True),
     # repaired (76c845a, recorded as a finding before): == goes through the more specific partial_ord key (a float), the Eq assertion used to look at the ord key only
@@ -170,8 +175,9 @@ def programs(ctx):
     for (lst, item, must) in EXTRA:
         generic = "<T>" in item
         must_c = False if must is None else must
-        text = "#[derive_ex::derive_ex(%s)]\n%s\n\npub fn hby<H: core::hash::Hasher>(_x: &NE, _h: &mut H) {}\npub fn need_eq<E: Eq>() {}\npub fn probe() { need_eq::<X%s>(); }\npub fn replay(h: &str, b: &[u8]) -> (bool, String) { (true, String::new()) }\n" % (
-            lst, item, "<NE>" if generic else "")
+        head = ("#[derive(derive_ex::Ex, PartialEq)]\n#[derive_ex(%s)]" % lst.split(":", 1)[1]) if lst.startswith("@derive:") else "#[derive_ex::derive_ex(%s)]" % lst
+        text = "%s\n%s\n\npub fn hby<H: core::hash::Hasher>(_x: &NE, _h: &mut H) {}\npub fn need_eq<E: Eq>() {}\npub fn probe() { need_eq::<X%s>(); }\npub fn replay(h: &str, b: &[u8]) -> (bool, String) { (true, String::new()) }\n" % (
+            head, item, "<NE>" if generic else "")
         p = E.Prog("p_%04d" % i, text, [], {"describe": "derive_ex(%s) %s  [must %s]" % (lst, item, "compile" if must_c else "be refused")}, expect_compile=must_c)
         p.meta["generic"] = generic
         out.append(p)
